@@ -389,7 +389,7 @@ def nameSections (tab : Bytes) : List Rec → Py (List Section)
 def defaultSections (sh : List Rec) : List Section :=
   sh.zipIdx.map (fun p => { hdr := p.1, name := defaultName p.2 })
 
-/-- section names: `".s%d"` defaults, then the string table `Shdr[e_shstrndx]` of the *filtered* list -/
+/-- section names: `".s%d"` defaults, then the string table `Shdr[e_shstrndx]` -/
 def elfNames (eh : Rec) (sh : List Rec) (data : Bytes) : Py (List Section) :=
   let n := fget eh "e_shstrndx"
   if n != 0 && n < sh.length then
@@ -415,7 +415,9 @@ def elfTables (env : ElfEnv) (data : Bytes) : Py ElfTables :=
       match elfPhdrsAll be x64 eh data with
       | .error e => .error e
       | .ok phAll =>
-        let sh := (elfShdrsAll be x64 eh data).filter (fun s => env.knownSHT.contains (fget s "sh_type"))
+        -- (repair C14-elf-shdr-keep-unknown.diff: sections of a type outside `Consts.All["sh_type"]`
+        --  are logged but kept, so `e_shstrndx` indexes the table the file encodes)
+        let sh := elfShdrsAll be x64 eh data
         match elfNames eh sh data with
         | .error e => .error e
         | .ok secs =>
